@@ -10,7 +10,7 @@ use crate::refm::resolver::*;
 use scpi::Context;
 
 pub fn run(cfg: &Cfg, rep: &mut Report) {
-    let ntrees = cfg.n(6, 12_000, 400_000);
+    let ntrees = cfg.n(6, 60_000, 1_200_000);
     let nmsg = cfg.n(8, 120, 300) as usize;
     run_cases(cfg, "arity", ntrees, rep, |rng, ctx| {
         let (specs, nh) = TreeGen::generate(rng, true);
